@@ -44,6 +44,7 @@ class DequeSpec(SeqSpec):
     component = "deque"
     imports = "From Juniper Require Import Common.Base Deque.Model Deque.Spec Deque.Corr."
     checkers = {"M": "check_M", "S": "check_S"}
+    case_type = "list (op Z) * list (out Z)"
 
     def __init__(self, iterators):
         self.iterators = iterators     # False: C04 histories; True: C15 histories with live iterators
